@@ -366,14 +366,21 @@ extern "C" void h_mkTimes3_two_sums() {
     for (int k = 0; k < 7; k++) { PTRef a[3] = {PTRef{p[k][0]}, PTRef{p[k][1]}, PTRef{p[k][2]}}; times_tuple<3>(a); }
     finish<W_REJ | W_REJ2SUMS | W_RET | W_DISTRIB>(7);
 }
-// thorough tier: all pairs, all triples
-extern "C" void h_mkTimes2_a() { finish<W_REJ | W_RET | W_RET_EXIST | W_RET_NEW | W_DISTRIB | W_FOLDED>(times2(ROWS(0, 5), ALL, N_ARITH)); }
-extern "C" void h_mkTimes2_b() { finish<W_REJ | W_RET | W_RET_EXIST | W_RET_NEW | W_DISTRIB | W_FOLDED>(times2(ROWS(5, 10), ALL, N_ARITH)); }
-extern "C" void h_mkTimes2_c() { finish<W_REJ | W_RET | W_RET_EXIST | W_RET_NEW | W_DISTRIB>(times2(ROWS(10, 14), ALL, N_ARITH)); }
-extern "C" void h_mkTimes3_0_a() { finish<W_RET | W_RET_EXIST | W_ZERO_NL>(times3(0, ROWS(0, 7), ALL, N_ARITH)); }     // first factor 0: always 0
-extern "C" void h_mkTimes3_0_b() { finish<W_RET | W_RET_EXIST | W_ZERO_NL>(times3(0, ROWS(7, 14), ALL, N_ARITH)); }
-#define T3(k) extern "C" void h_mkTimes3_##k##_a() { finish<W_REJ | W_RET>(times3(k, ROWS(0, 7), ALL, N_ARITH)); } extern "C" void h_mkTimes3_##k##_b() { finish<W_REJ | W_RET>(times3(k, ROWS(7, 14), ALL, N_ARITH)); }
-T3(1) T3(2) T3(3) T3(4) T3(5) T3(6) T3(7) T3(8) T3(9) T3(10) T3(11) T3(12) T3(13)
+// thorough tier: all pairs, all triples. The rows (first / second argument) are split in five groups -- {0,1,-1} {x,y,2} {-3,2x,-y}
+// {x+1,y+1,x+y} {3-argument sum, 2-y} -- because CBMC's object numbering (--object-bits 12) admits only about 50 calls per entry.
+#define SPLIT5(name, call, ma, mb, mc, md, me) \
+    extern "C" void name##_a() { finish<ma>(call(ROWS(0, 3))); } extern "C" void name##_b() { finish<mb>(call(ROWS(3, 6))); } \
+    extern "C" void name##_c() { finish<mc>(call(ROWS(6, 9))); } extern "C" void name##_d() { finish<md>(call(ROWS(9, 12))); } \
+    extern "C" void name##_e() { finish<me>(call(ROWS(12, 14))); }
+static int t2rows(uint32_t const * l, int n) { return times2(l, n, ALL, N_ARITH); }
+#define W_T2 (W_REJ | W_RET | W_RET_EXIST | W_RET_NEW | W_DISTRIB)
+SPLIT5(h_mkTimes2, t2rows, (W_RET | W_RET_EXIST | W_RET_NEW | W_DISTRIB | W_FOLDED), (W_T2 | W_FOLDED), (W_T2 | W_FOLDED), W_T2, W_T2)
+template <uint32_t K> static int t3rows(uint32_t const * l, int n) { return times3(K, l, n, ALL, N_ARITH); }
+#define W_T3 (W_REJ | W_RET)
+#define T3C(k) SPLIT5(h_mkTimes3_##k, t3rows<k>, W_RET, W_T3, W_T3, W_T3, W_T3)          /* constant first factor: constant x constant x anything is never rejected */
+#define T3N(k) SPLIT5(h_mkTimes3_##k, t3rows<k>, W_T3, W_T3, W_T3, W_T3, W_T3)
+SPLIT5(h_mkTimes3_0, t3rows<0>, (W_RET | W_RET_EXIST), (W_RET | W_RET_EXIST | W_ZERO_NL), (W_RET | W_RET_EXIST | W_ZERO_NL), (W_RET | W_RET_EXIST | W_ZERO_NL), (W_RET | W_RET_EXIST | W_ZERO_NL))   // first factor 0: always 0
+T3C(1) T3C(2) T3N(3) T3N(4) T3C(5) T3C(6) T3N(7) T3N(8) T3N(9) T3N(10) T3N(11) T3N(12) T3N(13)
 
 enum Op { O_PLUS, O_MINUS, O_LEQ, O_GEQ, O_LT, O_GT, O_EQ };
 template <int N> static void sum_tuple(Op op, PTRef const * a) {
@@ -410,11 +417,13 @@ extern "C" void h_mkNeg() {
 extern "C" void h_mkPlus2_q1() { finish<W_RET | W_RET_EXIST | W_RET_NEW | W_FOLDED | W_NEWSUM>(sums2(O_PLUS, QA, 4, QA, NQA)); }
 extern "C" void h_mkPlus2_q2() { finish<W_RET | W_RET_EXIST | W_RET_NEW | W_NEWSUM>(sums2(O_PLUS, QA + 4, 3, QA, NQA)); }
 extern "C" void h_mkMinus2_q() { finish<W_RET | W_RET_EXIST | W_RET_NEW | W_NEWSUM>(sums2(O_MINUS, QB, NQB, QB, NQB)); }
-extern "C" void h_mkPlus2_a() { finish<W_RET | W_RET_EXIST | W_RET_NEW | W_FOLDED | W_NEWSUM>(sums2(O_PLUS, ROWS(0, 7), ALL, N_ARITH)); }
-extern "C" void h_mkPlus2_b() { finish<W_RET | W_RET_NEW | W_NEWSUM>(sums2(O_PLUS, ROWS(7, 14), ALL, N_ARITH)); }
-extern "C" void h_mkMinus2_a() { finish<W_RET | W_RET_EXIST | W_RET_NEW | W_FOLDED | W_NEWSUM>(sums2(O_MINUS, ROWS(0, 7), ALL, N_ARITH)); }
-extern "C" void h_mkMinus2_b() { finish<W_RET | W_RET_NEW | W_NEWSUM>(sums2(O_MINUS, ROWS(7, 14), ALL, N_ARITH)); }
-#define P3(k) extern "C" void h_mkPlus3_##k##_a() { finish<W_RET | W_RET_NEW | W_NEWSUM>(plus3(k, ROWS(0, 7), ALL, N_ARITH)); } extern "C" void h_mkPlus3_##k##_b() { finish<W_RET | W_RET_NEW | W_NEWSUM>(plus3(k, ROWS(7, 14), ALL, N_ARITH)); }
+#define W_SUM (W_RET | W_RET_NEW | W_NEWSUM)
+static int p2rows(uint32_t const * l, int n) { return sums2(O_PLUS, l, n, ALL, N_ARITH); }
+static int m2rows(uint32_t const * l, int n) { return sums2(O_MINUS, l, n, ALL, N_ARITH); }
+SPLIT5(h_mkPlus2, p2rows, W_SUM, W_SUM, W_SUM, W_SUM, W_SUM)
+SPLIT5(h_mkMinus2, m2rows, W_SUM, W_SUM, W_SUM, W_SUM, W_SUM)
+template <uint32_t K> static int p3rows(uint32_t const * l, int n) { return plus3(K, l, n, ALL, N_ARITH); }
+#define P3(k) SPLIT5(h_mkPlus3_##k, p3rows<k>, W_SUM, W_SUM, W_SUM, W_SUM, W_SUM)
 P3(3) P3(7) P3(9) P3(12)
 
 #ifdef ARITH_CMP
@@ -451,6 +460,7 @@ static void geqltgt(uint32_t a) {
 }
 extern "C" void h_mkGeqLtGt_q1() { geqltgt(N_X); }
 extern "C" void h_mkGeqLtGt_q2() { geqltgt(N_XP1); }
-#define CMP2(name, op) extern "C" void h_##name##_a() { finish<W_CMP>(cmps(op, ROWS(0, 7), ALL, N_ARITH)); } extern "C" void h_##name##_b() { finish<W_CMP>(cmps(op, ROWS(7, 14), ALL, N_ARITH)); }
-CMP2(mkLeq, O_LEQ) CMP2(mkGeq, O_GEQ) CMP2(mkLt, O_LT) CMP2(mkGt, O_GT) CMP2(mkEq, O_EQ)
+template <Op OP> static int cmprows(uint32_t const * l, int n) { return cmps(OP, l, n, ALL, N_ARITH); }
+#define CMP5(name, op) SPLIT5(h_##name, cmprows<op>, W_CMP, W_CMP, W_CMP, W_CMP, W_CMP)
+CMP5(mkLeq, O_LEQ) CMP5(mkGeq, O_GEQ) CMP5(mkLt, O_LT) CMP5(mkGt, O_GT) CMP5(mkEq, O_EQ)
 #endif
